@@ -682,9 +682,29 @@ def run_conjuncts(chk, specs, rule_default='conjunct'):
             raise AnalysisBroken('anchor function %s vanished from %s' % (func, src))
         F = U.func(func)
         sites = AccumAll(var, op).sites(U, func)
-        if len(sites) < min_sites:
+        # number of independent contributions: `r &= a & b` counts as two
+        upd = set(i['id'] for _, i in sites)
+
+        def leaves(o, depth=0):
+            if o['k'] != 'i' or depth > 6:
+                return 1
+            j = F.insts[o['v']]
+            if j['id'] in upd:
+                return 0            # the accumulator chain itself
+            if j['op'] == op:
+                return sum(leaves(x, depth + 1) for x in j['ops'])
+            if j['op'] in ('zext', 'sext', 'trunc'):
+                return leaves(j['ops'][0], depth + 1)
+            if j['op'] == 'phi' and any(x['k'] == 'i' and x['v'] in upd for x in j['ops']):
+                return 0
+            return 1
+        ncontrib = sum(max(1, sum(leaves(x) for x in i['ops'])) for _, i in sites)
+        if __import__('os').environ.get('VERIF_CONJ_DEBUG'):
+            print('CONJ', src, func, var, op, 'min', min_sites, 'updates', len(sites), 'contrib', ncontrib)
+        eff = max(len(sites), ncontrib - 1)       # the initial value of the accumulator is one of the leaves
+        if eff < min_sites:
             chk.violation(rule, '%s: %s %s= ...' % (func, var, '|' if op == 'or' else '&'), F.where(),
-                          'expected at least %d accumulator updates of %s, found %d: a check is missing (%s)' % (min_sites, var, len(sites), reason),
+                          'expected at least %d contributions to %s, found %d: a check is missing (%s)' % (min_sites, var, eff, reason),
                           key='%s missing-site %s %s' % (rule, func, var))
             continue
         for name, ins in sites:
